@@ -336,3 +336,257 @@ Theorem C02_example_field_goes_with_member :
 Proof. exact others_field_goes_with_member. Qed.
 Print Assumptions C02_example_field_goes_with_member.
 
+
+(* ---- "two managers applying configurations with disjoint field sets reach the same object and
+   ownership in either order" (Proofs/Commute*.v).  Same object: up to the order of set and
+   keyed-list members (each apply appends its new members).  Proved for two managers that own
+   nothing yet (no pruning), and for managers with records that keep everything they own
+   (every member of the record is a node of the new configuration).  "Disjoint" must mean that
+   no path of one field set is a prefix of a path of the other (refuted for mere
+   set-disjointness over the schemaless type: f: 5 against f: {y: 1}).  When a manager
+   ABANDONS fields between the two applies the clause is refuted -- by the emptied container
+   left as null (known findings F17/F26) even when all objects involved are hollow-free, and,
+   independently, when the other configuration names a field of the manager's previous record.
+   The general clause for abandoning managers under "records prefix-disjoint from the other
+   configuration, final objects hollow-free" held on 3 336 evaluated cases and is not proved. ---- *)
+From Coq Require Import List ZArith String Bool Arith Lia.
+From SMD Require Import Model.Value Model.Order Model.PathElem Model.PathSet Model.Schema Model.Walk
+  Model.Validate Model.FieldSet Model.Remove Model.Merge Model.Compare Model.Matcher Model.Reconcile
+  Model.Updater
+  Spec.PathsAsSets Spec.RefValid Spec.Resolve Spec.Agree Spec.RefDiff Spec.Examples
+  Proofs.OrderLaws Proofs.PathSetLaws Proofs.SchemaOk Proofs.FieldSetBase Proofs.FieldSetPaths
+  Proofs.FieldSetWf Proofs.FieldSetLaws Proofs.RemoveAbsent Proofs.RemoveWf Proofs.ResolveLaws
+  Proofs.UpdaterLaws Proofs.UpdaterLaws2 Proofs.MergeLaws Proofs.MergeAgree
+  Proofs.RemoveFrame Proofs.EnLaws Proofs.NodeSet Proofs.KeyFields Proofs.VeqbResolve
+  Proofs.SetCheckers Proofs.ApplyEffect Proofs.RefDiffBoth Proofs.RefDiffLaws Proofs.RefDiffPresent
+  Proofs.ApplyInv Proofs.History Proofs.Reapply.
+From SMD Require Import Proofs.CompareLaws Proofs.ReconcileTotal Proofs.ConflictsApply Proofs.ApplyPruneBase Proofs.RecordsHistory Proofs.TreeFacts
+  Proofs.FieldSetShape Proofs.SameLeaves Proofs.CommuteLeaves Proofs.CommuteMod Proofs.CommuteSame.
+From SMD Require Proofs.MergeRest Proofs.MergeBase Proofs.ReconcileBase Proofs.MergeRestBase Proofs.RefDiffBase Proofs.RefDiffChar Proofs.ExtractBase.
+From SMD Require Import Proofs.Commute.
+Theorem C02_fresh_disjoint_applies_commute :
+  forall (c : config) (R : typeref -> Prop) (ver : string) (live : value) 
+           (mf : managed) (a b : string) (cfgA cfgB : value) (fsA fsB : pset),
+         setting_ok c R ver ->
+         state_ok c ver live mf ->
+         dup_free (schema_of c ver) (tr_of c ver) live = true ->
+         hollow_free live ->
+         a <> b ->
+         mf_get a mf = None ->
+         mf_get b mf = None ->
+         op_ok c ver (HApply a cfgA true) ->
+         op_ok c ver (HApply b cfgB true) ->
+         to_field_set (schema_of c ver) (tr_of c ver) cfgA = Some fsA ->
+         to_field_set (schema_of c ver) (tr_of c ver) cfgB = Some fsB ->
+         prefix_disjoint fsA fsB ->
+         let sAB := both c ver (live, mf) (HApply a cfgA true) (HApply b cfgB true) in
+         let sBA := both c ver (live, mf) (HApply b cfgB true) (HApply a cfgA true) in
+         veq_assoc (schema_of c ver) (tr_of c ver) (fst sAB) (fst sBA) = true /\
+         same_records (snd sAB) (snd sBA).
+Proof. exact fresh_disjoint_applies_commute. Qed.
+Print Assumptions C02_fresh_disjoint_applies_commute.
+
+Theorem C02_keeping_disjoint_applies_commute :
+  forall (c : config) (R : typeref -> Prop) (ver : string) (live : value) 
+           (mf : managed) (a b : string) (cfgA cfgB : value) (fsA fsB : pset),
+         setting_ok c R ver ->
+         state_ok c ver live mf ->
+         dup_free (schema_of c ver) (tr_of c ver) live = true ->
+         hollow_free live ->
+         a <> b ->
+         keeps_all c ver cfgA mf a ->
+         keeps_all c ver cfgB mf b ->
+         op_ok c ver (HApply a cfgA true) ->
+         op_ok c ver (HApply b cfgB true) ->
+         to_field_set (schema_of c ver) (tr_of c ver) cfgA = Some fsA ->
+         to_field_set (schema_of c ver) (tr_of c ver) cfgB = Some fsB ->
+         prefix_disjoint fsA fsB ->
+         let sAB := both c ver (live, mf) (HApply a cfgA true) (HApply b cfgB true) in
+         let sBA := both c ver (live, mf) (HApply b cfgB true) (HApply a cfgA true) in
+         veq_assoc (schema_of c ver) (tr_of c ver) (fst sAB) (fst sBA) = true /\
+         same_records (snd sAB) (snd sBA).
+Proof. exact keeping_disjoint_applies_commute. Qed.
+Print Assumptions C02_keeping_disjoint_applies_commute.
+
+Theorem C02_commutation_refuted_when_a_manager_abandons :
+  setting_ok ex_config FieldSetLaws.ex_R "v1" /\
+         state_ok ex_config "v1" l2_obj l2_mf /\
+         dup_free (schema_of ex_config "v1") (tr_of ex_config "v1") l2_obj = true /\
+         hollow_free l2_obj /\
+         "a" <> "d" /\
+         op_ok ex_config "v1" (HApply "a" l2_cfgA true) /\
+         op_ok ex_config "v1" (HApply "d" l2_cfgB true) /\
+         to_field_set (schema_of ex_config "v1") (tr_of ex_config "v1") l2_cfgA = Some l2_fsA /\
+         to_field_set (schema_of ex_config "v1") (tr_of ex_config "v1") l2_cfgB = Some l2_fsB /\
+         prefix_disjoint l2_fsA l2_fsB /\
+         (let sAB :=
+            both ex_config "v1" (l2_obj, l2_mf) (HApply "a" l2_cfgA true)
+              (HApply "d" l2_cfgB true) in
+          let sBA :=
+            both ex_config "v1" (l2_obj, l2_mf) (HApply "d" l2_cfgB true)
+              (HApply "a" l2_cfgA true) in
+          fst sAB =
+          VMap (("aa", VInt 1) :: ("items", VNull) :: ("mm", VMap (("k", VInt 1) :: nil)) :: nil) /\
+          fst sBA = VMap (("aa", VInt 1) :: ("mm", VMap (("k", VInt 1) :: nil)) :: nil) /\
+          veq_assoc (schema_of ex_config "v1") (tr_of ex_config "v1") (fst sAB) (fst sBA) = false).
+Proof. exact disjoint_applies_commute_as_stated_refuted. Qed.
+Print Assumptions C02_commutation_refuted_when_a_manager_abandons.
+
+Theorem C02_commutation_refuted_even_hollow_free :
+  setting_ok ex_config FieldSetLaws.ex_R "v1" /\
+         state_ok ex_config "v1" l3_obj l3_mf /\
+         dup_free (schema_of ex_config "v1") (tr_of ex_config "v1") l3_obj = true /\
+         hollow_free l3_obj /\
+         "a" <> "b" /\
+         op_ok ex_config "v1" (HApply "a" l2_cfgA true) /\
+         op_ok ex_config "v1" (HApply "b" l2_cfgB true) /\
+         to_field_set (schema_of ex_config "v1") (tr_of ex_config "v1") l2_cfgA = Some l2_fsA /\
+         to_field_set (schema_of ex_config "v1") (tr_of ex_config "v1") l2_cfgB = Some l2_fsB /\
+         prefix_disjoint l2_fsA l2_fsB /\
+         hollow_free (fst (hstep ex_config "v1" (l3_obj, l3_mf) (HApply "a" l2_cfgA true))) /\
+         hollow_free (fst (hstep ex_config "v1" (l3_obj, l3_mf) (HApply "b" l2_cfgB true))) /\
+         (let sAB :=
+            both ex_config "v1" (l3_obj, l3_mf) (HApply "a" l2_cfgA true)
+              (HApply "b" l2_cfgB true) in
+          let sBA :=
+            both ex_config "v1" (l3_obj, l3_mf) (HApply "b" l2_cfgB true)
+              (HApply "a" l2_cfgA true) in
+          fst sAB = VMap (("aa", VInt 1) :: ("mm", VMap (("k", VInt 1) :: nil)) :: nil) /\
+          fst sBA =
+          VMap (("aa", VInt 1) :: ("items", VNull) :: ("mm", VMap (("k", VInt 1) :: nil)) :: nil) /\
+          veq_assoc (schema_of ex_config "v1") (tr_of ex_config "v1") (fst sAB) (fst sBA) = false).
+Proof. exact disjoint_applies_commute_hollow_free_steps_refuted. Qed.
+Print Assumptions C02_commutation_refuted_even_hollow_free.
+
+Theorem C02_commutation_needs_records_disjoint :
+  setting_ok ex_config FieldSetLaws.ex_R "v1" /\
+         state_ok ex_config "v1" hx_obj hx_mf /\
+         dup_free (schema_of ex_config "v1") (tr_of ex_config "v1") hx_obj = true /\
+         hollow_free hx_obj /\
+         "a" <> "e" /\
+         op_ok ex_config "v1" (HApply "a" l4_cfgA true) /\
+         op_ok ex_config "v1" (HApply "e" l4_cfgB true) /\
+         to_field_set (schema_of ex_config "v1") (tr_of ex_config "v1") l4_cfgA = Some l2_fsA /\
+         to_field_set (schema_of ex_config "v1") (tr_of ex_config "v1") l4_cfgB = Some l4_fsB /\
+         prefix_disjoint l2_fsA l4_fsB /\
+         (let sA := hstep ex_config "v1" (hx_obj, hx_mf) (HApply "a" l4_cfgA true) in
+          let sB := hstep ex_config "v1" (hx_obj, hx_mf) (HApply "e" l4_cfgB true) in
+          let sAB :=
+            both ex_config "v1" (hx_obj, hx_mf) (HApply "a" l4_cfgA true)
+              (HApply "e" l4_cfgB true) in
+          let sBA :=
+            both ex_config "v1" (hx_obj, hx_mf) (HApply "e" l4_cfgB true)
+              (HApply "a" l4_cfgA true) in
+          hollow_free (fst sA) /\
+          hollow_free (fst sB) /\
+          hollow_free (fst sAB) /\
+          hollow_free (fst sBA) /\
+          fst sAB =
+          VMap
+            (("aa", VInt 1)
+             :: ("items",
+                 VList
+                   (VMap (("name", VStr "z") :: ("vv", VInt 3) :: nil)
+                    :: VMap (("name", VStr "y") :: nil) :: nil))
+                :: ("mm", VMap (("k", VInt 2) :: nil)) :: nil) /\
+          fst sBA =
+          VMap
+            (("aa", VInt 1)
+             :: ("items",
+                 VList
+                   (VMap (("name", VStr "y") :: ("vv", VInt 7) :: nil)
+                    :: VMap (("name", VStr "z") :: ("vv", VInt 3) :: nil) :: nil))
+                :: ("mm", VMap (("k", VInt 2) :: nil)) :: nil) /\
+          veq_assoc (schema_of ex_config "v1") (tr_of ex_config "v1") (fst sAB) (fst sBA) = false /\
+          ~ same_records (snd sAB) (snd sBA)).
+Proof. exact disjoint_applies_commute_needs_records_disjoint. Qed.
+Print Assumptions C02_commutation_needs_records_disjoint.
+
+Theorem C02_commutation_needs_prefix_disjoint :
+  let s := schema_of kc_config "v1" in
+         let tr := tr_of kc_config "v1" in
+         setting_ok kc_config MergeRest.kc_R "v1" /\
+         state_ok kc_config "v1" VNull nil /\
+         dup_free s tr VNull = true /\
+         hollow_free VNull /\
+         "a" <> "b" /\
+         mf_get "a" nil = None /\
+         mf_get "b" nil = None /\
+         op_ok kc_config "v1" (HApply "a" pn_cfgA true) /\
+         op_ok kc_config "v1" (HApply "b" pn_cfgB true) /\
+         to_field_set s tr pn_cfgA = Some pn_fsA /\
+         to_field_set s tr pn_cfgB = Some pn_fsB /\
+         (forall p : path, wf_path p = true -> ps_has p pn_fsA = true -> ps_has p pn_fsB = false) /\
+         (let sAB :=
+            both kc_config "v1" (VNull, nil) (HApply "a" pn_cfgA true) (HApply "b" pn_cfgB true)
+            in
+          let sBA :=
+            both kc_config "v1" (VNull, nil) (HApply "b" pn_cfgB true) (HApply "a" pn_cfgA true)
+            in
+          fst sAB = pn_cfgB /\ fst sBA = pn_cfgA /\ veq_assoc s tr (fst sAB) (fst sBA) = false).
+Proof. exact fresh_commute_needs_prefix_disjoint. Qed.
+Print Assumptions C02_commutation_needs_prefix_disjoint.
+
+Theorem C02_commute_example :
+  let sAB :=
+           both ex_config "v1" (hx_obj, hx_mf) (HApply "e" cx_cfgA true)
+             (HApply "f" cx_cfgB true) in
+         let sBA :=
+           both ex_config "v1" (hx_obj, hx_mf) (HApply "f" cx_cfgB true)
+             (HApply "e" cx_cfgA true) in
+         (veq_assoc (schema_of ex_config "v1") (tr_of ex_config "v1") (fst sAB) (fst sBA) = true /\
+          same_records (snd sAB) (snd sBA)) /\
+         fst sAB = cx_objAB /\
+         fst sBA = cx_objBA /\
+         veqb (fst sAB) (fst sBA) = false /\
+         map (fun mr : string * mrec => (fst mr, ps_elems (mr_set (snd mr)))) (snd sAB) =
+         ("a",
+          (PEField "items" :: PEKey (("name", VStr "y") :: nil) :: nil)
+          :: (PEField "items" :: PEKey (("name", VStr "y") :: nil) :: PEField "name" :: nil)
+             :: nil)
+         :: ("b",
+             (PEField "items" :: PEKey (("name", VStr "z") :: nil) :: nil)
+             :: (PEField "items" :: PEKey (("name", VStr "z") :: nil) :: PEField "name" :: nil)
+                :: (PEField "items" :: PEKey (("name", VStr "z") :: nil) :: PEField "vv" :: nil)
+                   :: nil)
+            :: ("d",
+                (PEField "items" :: PEKey (("name", VStr "y") :: nil) :: PEField "vv" :: nil)
+                :: nil)
+               :: ("e",
+                   (PEField "aa" :: nil)
+                   :: (PEField "items" :: PEKey (("name", VStr "q") :: nil) :: nil)
+                      :: (PEField "items"
+                          :: PEKey (("name", VStr "q") :: nil) :: PEField "name" :: nil)
+                         :: (PEField "items"
+                             :: PEKey (("name", VStr "q") :: nil) :: PEField "vv" :: nil) :: nil)
+                  :: ("f",
+                      (PEField "items" :: PEKey (("name", VStr "r") :: nil) :: nil)
+                      :: (PEField "items"
+                          :: PEKey (("name", VStr "r") :: nil) :: PEField "name" :: nil)
+                         :: (PEField "items"
+                             :: PEKey (("name", VStr "r") :: nil) :: PEField "vv" :: nil)
+                            :: (PEField "mm" :: PEField "k" :: nil) :: nil) :: nil.
+Proof. exact commute_example. Qed.
+Print Assumptions C02_commute_example.
+
+Theorem C02_keeping_example :
+  let sAB :=
+           both ex_config "v1" (hx_obj, hx_mf) (HApply "a" kx_cfgA true)
+             (HApply "c" kx_cfgB true) in
+         let sBA :=
+           both ex_config "v1" (hx_obj, hx_mf) (HApply "c" kx_cfgB true)
+             (HApply "a" kx_cfgA true) in
+         (exists ra rc : mrec, mf_get "a" hx_mf = Some ra /\ mf_get "c" hx_mf = Some rc) /\
+         (veq_assoc (schema_of ex_config "v1") (tr_of ex_config "v1") (fst sAB) (fst sBA) = true /\
+          same_records (snd sAB) (snd sBA)) /\
+         fst sAB =
+         VMap
+           (("aa", VInt 3)
+            :: ("items",
+                VList
+                  (VMap (("name", VStr "y") :: ("vv", VInt 7) :: nil)
+                   :: VMap (("name", VStr "z") :: ("vv", VInt 3) :: nil) :: nil))
+               :: ("mm", VMap (("j", VInt 1) :: ("k", VInt 7) :: nil)) :: nil).
+Proof. exact keeping_example. Qed.
+Print Assumptions C02_keeping_example.
+
